@@ -306,7 +306,10 @@ def directed(ctx, prefix="C03"):
         fac = np.array([rng.choice(FACT) for _ in vs]).reshape(-1, 1)
         scaled_obj = cls(arr * fac)
         p0 = g.Point(np.array(lift(pt), dtype=float))
-        p1 = g.Point(np.array(lift(pt), dtype=float) * rng.choice(FACT))
+        # the point's representative: a real factor of either sign, or (planar figures) a complex one — the library itself hands out
+        # purely imaginary representatives of real points (Line.project / Line.mirror)
+        pf = rng.choice(FACT + ([1j, -2j, 1 + 1j, 0.5j] if kind != "poly3" else []))
+        p1 = g.Point(np.array(lift(pt), dtype=float) * pf)
         desc = f"directed {kind}.contains vertices={vs} factors={fac.ravel().tolist()} point={pt} point representative={np.asarray(p1.array).tolist()}"
         ctx.case(desc, nontrivial=True)
         ctx.count(f"directed:{kind}")
@@ -375,6 +378,8 @@ def correspondence(ctx):
         scaled = rescale(args[pos], lam, rng)
         one_case(ctx, table, name, names, args, pos, lam, scaled)
     directed(ctx)
+    from props import c13
+    c13.int_homogeneous_centres(ctx, ctx.budget(30, 300), prefix="C03")
     # == is false for clear non-multiples
     import geometer as g
     for k in range(ctx.budget(60, 600)):
